@@ -329,6 +329,88 @@ pub fn syntactically_monotone(ast: &RAst) -> bool {
     own && ast.children().iter().all(|c| syntactically_monotone(c))
 }
 
+/// Monotone bodies whose Kleene chain is as long as the lattice allows (2^k steps over k
+/// variables, far more than the number of names): the minterms m_0, m_1, .. of the variables are
+/// visited along a random path,
+/// `lfp X # m_0 | X | ((exists vars # X & m_0) & m_1) | ((exists vars # X & m_1) & m_2) | ..`
+/// (`exists vars # X & m_i` = "m_i already belongs to X"); each application adds exactly one
+/// minterm. `gfp` variants are the De Morgan duals.
+pub fn path_chain_fix(t: &mut Tape, cfg: &Cfg) -> RAst {
+    let name = cfg.fix_names[t.choose(cfg.fix_names.len())].clone();
+    let vars: Vec<String> = cfg.names.iter().filter(|n| **n != name).cloned().collect();
+    if vars.len() < 2 {
+        return fix_formula(t, cfg);
+    }
+    let k = vars.len().min(4);
+    let vars = &vars[..k];
+    let n = 1usize << k;
+    // a random path through the minterms
+    let mut order: Vec<usize> = (0..n).collect();
+    for i in (1..n).rev() {
+        let j = t.choose(i + 1);
+        order.swap(i, j);
+    }
+    let len = 2 + t.choose(n - 1); // 2..=n minterms on the path
+    let minterm = |m: usize| -> RAst {
+        let mut acc: Option<RAst> = None;
+        for (p, v) in vars.iter().enumerate() {
+            let lit = if (m >> p) & 1 == 1 { RAst::Var(v.clone()) } else { RAst::not(RAst::Var(v.clone())) };
+            acc = Some(match acc {
+                None => lit,
+                Some(a) => RAst::bin(BinOp::And, a, lit),
+            });
+        }
+        acc.expect("k >= 2")
+    };
+    let x = || RAst::Var(name.clone());
+    let mut body = RAst::bin(BinOp::Or, minterm(order[0]), x());
+    for i in 1..len {
+        let reached = RAst::Quant(true, vars.to_vec(), Box::new(RAst::bin(BinOp::And, x(), minterm(order[i - 1]))));
+        body = RAst::bin(BinOp::Or, body, RAst::bin(BinOp::And, reached, minterm(order[i])));
+    }
+    if t.flag() {
+        RAst::Fix(name, false, Box::new(body))
+    } else {
+        // dual: gfp X # not T[X := not X]
+        RAst::Fix(name.clone(), true, Box::new(RAst::not(subst_not_free(&body, &name))))
+    }
+}
+
+/// T[X := not X] for the free occurrences of X
+pub fn subst_not_free(a: &RAst, name: &str) -> RAst {
+    match a {
+        RAst::Var(n) if n == name => RAst::not(RAst::Var(n.clone())),
+        RAst::Not(b) => RAst::not(subst_not_free(b, name)),
+        RAst::Bin(op, l, r) => RAst::bin(*op, subst_not_free(l, name), subst_not_free(r, name)),
+        RAst::Ite(c, th, e) => RAst::Ite(
+            Box::new(subst_not_free(c, name)),
+            Box::new(subst_not_free(th, name)),
+            Box::new(subst_not_free(e, name)),
+        ),
+        RAst::Quant(ex, ns, b) => {
+            if ns.iter().any(|n| n == name) {
+                a.clone()
+            } else {
+                RAst::Quant(*ex, ns.clone(), Box::new(subst_not_free(b, name)))
+            }
+        }
+        RAst::Fix(n, g, b) => {
+            if n == name {
+                a.clone()
+            } else {
+                RAst::Fix(n.clone(), *g, Box::new(subst_not_free(b, name)))
+            }
+        }
+        RAst::CountConst(op, l, c) => RAst::CountConst(*op, l.iter().map(|f| subst_not_free(f, name)).collect(), *c),
+        RAst::CountList(op, l, r) => RAst::CountList(
+            *op,
+            l.iter().map(|f| subst_not_free(f, name)).collect(),
+            r.iter().map(|f| subst_not_free(f, name)).collect(),
+        ),
+        other => other.clone(),
+    }
+}
+
 /// A constructed family of monotone bodies whose Kleene chain needs several steps:
 /// `lfp X # s0 | X | ((all v0 # v0 => X) & v1) | ((all v1 # v1 => X) & v2) ...`
 /// (each stage becomes true only after the previous variable has been absorbed), plus
